@@ -1,12 +1,13 @@
 #!/usr/bin/env python3
-"""tools/try.py file.abra [k]  - compile+run one program through the executor, print outcome"""
+"""tools/try.py file.abra [k | json-run-spec]  - compile+run one program through the executor, print outcome"""
 import json, sys, os
 sys.path.insert(0, os.path.dirname(os.path.dirname(os.path.abspath(__file__))))
 import vlib
 src = open(sys.argv[1]).read() if sys.argv[1] != "-" else sys.stdin.read()
 run = {}
 if len(sys.argv) > 2:
-    run["budget"] = {"k": int(sys.argv[2])}
+    a = sys.argv[2]
+    run = json.loads(a) if a.startswith("{") else {"budget": {"k": int(a)}}
 ex = vlib.Executor("try")
 r = ex.run_alone({"id": "t", "files": {"main.abra": src}, "std": True, "runs": [run]})
 c = r.get("compile")
@@ -14,7 +15,9 @@ if not c or not c.get("ok"):
     print("COMPILE:", (c or r).get("errors") or c or r)
 else:
     x = r["runs"][0]
-    print("status=%s top=%s steps=%s" % (x["status"], x["top"], x["steps"]))
+    print("status=%s top=%s steps=%s calls=%s" % (x["status"], x["top"], x["steps"], x["calls"]))
     print("output:", x["output"])
     if x["err"]: print("err:", x["err"])
     if x["panic"]: print("panic:", x["panic"])
+    if x["viol"]: print("viol:", x["viol"])
+    print("gc:", x["gc"])
